@@ -11,7 +11,7 @@ ID = "C16"
 OPT_QUICK_ALL = True      # every partition also in a child interpreter started with -O
 LEVEL = "model_checking"
 TECHNIQUE = "explicit enumeration of all attach / re-attach histories (bounded length) over simulated targets of every peripheral device type and qualifier on both transports, judged by a device-type -> command-set reference table and a differential comparison with a fresh facade"
-RULE = ("depth 1: all 32 peripheral device types x 8 qualifiers x {SG_IO, iSCSI} x {SCSI(dev), facade(dev) re-attach}; all 32 types x attach made from an except block / a finally block during propagation / a generator resumed by throw() (first attach and re-attach); all 32 types x ADDITIONAL LENGTH {00,1F,5A,5B,5C,9F,FF} (first attach and re-attach); all 32 types x every single bit of INQUIRY bytes 1-7 and 56 set (the selection may depend on the device type only); histories: all sequences of "
+RULE = ("depth 1: all 32 peripheral device types x 8 qualifiers x {SG_IO, iSCSI} x {SCSI(dev), facade(dev) re-attach}; all 32 types x attach made from an except block / a finally block during propagation / a generator resumed by throw() (first attach and re-attach); all 32 types x facade subclasses with their own constructor (one that only stores the device, one with another signature) attached and re-attached by call; all 32 types x ADDITIONAL LENGTH {00,1F,5A,5B,5C,9F,FF} (first attach and re-attach); all 32 types x every single bit of INQUIRY bytes 1-7 and 56 set (the selection may depend on the device type only); histories: all sequences of "
         "length <= 3 over device types {00,01,03,04,05,07,08,0E,1F} (9^1+9^2+9^3 per transport, mixing transports at the second step), "
         "first step by construction, later steps by calling the same facade; every history of length 2-3 also with one earlier attach refused by its device (CHECK CONDITION / BUSY to the INQUIRY): it fails and the following attaches are judged as usual. all 32 types x 5 previous sets on a device object that logs every assignment to .opcodes (the set changes in one step, no transient other set). states = distinct (facade device, per-device command set) "
         "configurations; transitions = attach events. Non-trivial = history has a re-attach or a type other than 00.")
@@ -99,9 +99,39 @@ def attach_in(ctx, fn):
     raise ValueError(ctx)
 
 
+def _attach_deferred(cls, dev):
+    s = cls(None)
+    s(dev)
+    return s
+
+
+def facade_class(kind):
+    """0: the library's SCSI; 1: a subclass whose constructor only stores the device (attached later with s(dev)), as the test
+    suite's own MockSCSI does; 2: a subclass with another constructor signature (device only, block size fixed)"""
+    from pyscsi.pyscsi.scsi import SCSI
+    if kind == 1:
+        class DeferredSCSI(SCSI):
+            def __init__(self, dev, blocksize=0):
+                self.device = dev
+                self._blocksize = blocksize
+        return DeferredSCSI
+    if kind == 2:
+        class DiskSCSI(SCSI):
+            def __init__(self, dev):
+                super().__init__(dev, 512)
+        return DiskSCSI
+    return SCSI
+
+
 def run_case(case, obs=None):
     install.ensure()
     from pyscsi.pyscsi.scsi import SCSI
+    fkind = case[2] if len(case) > 2 else 0
+    if fkind:
+        SCSI = facade_class(fkind)
+        if fkind == 1:
+            first = SCSI
+            SCSI = lambda dev: _attach_deferred(first, dev)      # noqa: E731 - a deferred facade is created empty and attached by call
     steps = case[1]             # list of (transport, dtype, qualifier)
     out = []
     rigs = []
@@ -234,9 +264,9 @@ def run_partition(part, tier, seed):
     install.ensure()
     acc = Acc(seed)
 
-    def do(steps):
-        case = ["attach", steps]
-        acc.case(case, nontrivial=len(steps) > 1 or steps[0][1] != 0, key=repr(steps))
+    def do(steps, fkind=0):
+        case = ["attach", steps] + ([fkind] if fkind else [])
+        acc.case(case, nontrivial=len(steps) > 1 or steps[0][1] != 0, key=repr((steps, fkind)))
         obs = []
         try:
             v = run_case(case, obs)
@@ -288,6 +318,11 @@ def run_partition(part, tier, seed):
             for ctx in (1, 2, 3):
                 do([(tr, dtype, 0, {}, 0, ctx)])
                 do([(tr, 0x05, 0), (tr, dtype, 0, {}, 0, ctx)])
+            # facade subclasses with their own constructors: attach and re-attach by call still probe and select
+            for fkind in (1, 2):
+                do([(tr, dtype, 0)], fkind)
+                do([(tr, 0x01, 0), (tr, dtype, 0)], fkind)
+                do([(tr, dtype, 0), (tr, 0x08, 0), (tr, dtype, 0)], fkind)
         return acc
     _, tr, t0 = part
     other = "iscsi" if tr == "sgio" else "sgio"
